@@ -388,12 +388,13 @@ def main(argv=None):
                         canary_failed_as_required += 1
         # baseline of obligation names
         bpath = os.path.join(BASELINE, uname + '.json')
-        names_now = sorted(k for k in res.functions)
+        # (the index rustc gives an impl block - `impl&%78` - moves whenever an impl is added before it: not part of the identity)
+        names_now = sorted(set(re.sub(r'impl&%\d+', 'impl&%', k) for k in res.functions))
         if '--rebaseline' in argv:
             os.makedirs(BASELINE, exist_ok=True)
             json.dump({'functions': names_now}, open(bpath, 'w'), indent=1)
         elif os.path.exists(bpath):
-            base = json.load(open(bpath))['functions']
+            base = sorted(set(re.sub(r'impl&%\d+', 'impl&%', b) for b in json.load(open(bpath))['functions']))
             lost = [b for b in base if b not in names_now]
             if lost:
                 undecided.append('unit %s: obligations lost relative to committed baseline: %s' % (uname, ', '.join(lost[:5])))
